@@ -55,8 +55,11 @@ func classify(frames [][2]string) (class, site string) {
 	switch {
 	case strings.HasPrefix(f[0], gpref):
 		loc := f[1]
-		if k := strings.Index(loc, "github.com/bilibili/gengine/"); k >= 0 {
-			loc = loc[k+len(gpref):]
+		if k := strings.Index(loc, "github.com/bilibili/gengine"); k >= 0 {
+			loc = loc[k+len("github.com/bilibili/gengine"):]
+			if j := strings.Index(loc, "/"); j >= 0 { // skips "@v0.0.0" of -trimpath builds
+				loc = loc[j+1:]
+			}
 		} else if k := strings.Index(loc, "/gengine/"); k >= 0 {
 			loc = loc[k+len("/gengine/"):]
 		}
